@@ -1372,7 +1372,8 @@ class ScenarioTimeout(BaseException):
     pass
 
 
-SCENARIO_TIMEOUT_S = 60
+SCENARIO_TIMEOUT_S = 30
+_TIMED_OUT_KINDS = set()     # per worker process: after one scenario of a kind hung, the rest of that kind is skipped
 
 
 def _alarm(signum, frame):
@@ -1383,6 +1384,8 @@ def _run_job(job):
     """executed in a worker process: one case on the implementation, under a per-scenario time limit"""
     import signal
     kind, workroot, args = job
+    if kind in _TIMED_OUT_KINDS:
+        return Case([], dict(kind=kind, skipped="an earlier scenario of this kind did not finish"), [], None)
     wd = os.path.join(workroot, "w%d" % os.getpid())
     os.makedirs(wd, exist_ok=True)
     old_handler = None
@@ -1394,6 +1397,7 @@ def _run_job(job):
     try:
         return _run_job_inner(kind, workroot, args, wd)
     except ScenarioTimeout:
+        _TIMED_OUT_KINDS.add(kind)
         c = _failed_case(kind, args, LibraryFailure("the scenario did not finish within %d s (the library hangs or loops)" % SCENARIO_TIMEOUT_S))
         return c
     finally:
